@@ -117,6 +117,7 @@ def _chunk(args):
                 violations.append(
                     {
                         "run": i,
+                        "lo": lo,
                         "oracle": oracle,
                         "msg": vio.msg,
                         "event": vio.event,
@@ -171,7 +172,7 @@ def matches_known(entry, prop, vio):
     return j == len(pats)
 
 
-def write_replay(prop, master, vio, digest_hex=None):
+def write_replay(prop, master, vio, digest_hex=None, tier="quick", rerun=False):
     d = os.environ.get("VERIF_REPLAY_DIR") or os.path.join(env.VERIF_DIR, "replays")
     os.makedirs(d, exist_ok=True)
     path = os.path.join(d, f"{prop}-{master}-{vio['run']}-{vio['oracle']}.json")
@@ -186,6 +187,11 @@ def write_replay(prop, master, vio, digest_hex=None):
                 "event": vio["event"],
                 "original_commands": vio.get("orig_len"),
                 "case": vio["case"],
+                "tier": tier,
+                # set when the minimised case alone does not reproduce in a fresh interpreter
+                # (the violation depends on what earlier runs left behind in process-wide
+                # state of the library): replay then re-executes the worker's runs lo..run
+                "rerun_chunk": {"lo": vio.get("lo", vio["run"]), "run": vio["run"]} if rerun else None,
             },
             f,
             indent=1,
@@ -284,7 +290,9 @@ def run_property(prop, tier, master, runs=None, workers=None, out=sys.stdout):
         if v["oracle"] in seen:
             continue
         seen.add(v["oracle"])
-        path = write_replay(prop, master, v)
+        path = write_replay(prop, master, v, tier=tier)
+        if not _replays_fresh(path, v["oracle"]):
+            path = write_replay(prop, master, v, tier=tier, rerun=True)
         hit = next((e for e in known.get("known", []) if matches_known(e, prop, v)), None)
         if hit is not None:
             print(f"KNOWN-FINDING: property={prop} {hit.get('what', v['oracle'])}", file=out)
@@ -355,11 +363,37 @@ def run_property(prop, tier, master, runs=None, workers=None, out=sys.stdout):
     return rc
 
 
+def _replays_fresh(path, oracle):
+    """Does the replay file reproduce the same oracle in a fresh interpreter?"""
+    import subprocess
+
+    try:
+        p = subprocess.run([os.path.join(env.VERIF_DIR, "check"), "replay", path], capture_output=True, text=True, timeout=600)
+    except Exception:
+        return False
+    return p.returncode == 1 and f"oracle={oracle}" in p.stdout
+
+
 def replay(path, out=sys.stdout):
     with open(path) as f:
         rep = json.load(f)
     prop = rep["property"]
     mod = load(prop)
+    core.TIER = rep.get("tier", "quick")
+    rr = rep.get("rerun_chunk")
+    if rr:
+        # the violation needs the process history of the worker that found it: re-execute
+        # the same seeded runs in the same order (deterministic), judge the last one
+        master = rep["master_seed"]
+        for j in range(rr["lo"], rr["run"]):
+            one_run(mod, master, j)
+        st, vio = one_run(mod, master, rr["run"])
+        if vio is not None:
+            print(f"VIOLATION property={prop} replay={path}", file=out)
+            print(f"  oracle={vio.oracle} event={vio.event}: {vio.msg}  (re-executed runs {rr['lo']}..{rr['run']})", file=out)
+            return 1
+        print(f"replay {path}: no violation on this tree (runs {rr['lo']}..{rr['run']} re-executed)", file=out)
+        return 0
     try:
         with Watchdog(RUN_CPU_LIMIT_S):
             mod.execute(rep["case"], Stats())
